@@ -37,6 +37,16 @@ func (p *PKI) key(kind string) *oracle.Key {
 	return ks[i%len(ks)]
 }
 
+// spkiForm: an RSA CA key is sometimes encoded without the NULL algorithm
+// parameters (seen in the wild; the lenient parser accepts it with a non-fatal
+// error). Key hashes are over the bytes in the certificate, whatever their form.
+func (p *PKI) spkiForm(t *kernel.Tape, kind string) string {
+	if kind == "rsa2048" && t.Chance(1, 2) {
+		return "rsa-no-null"
+	}
+	return ""
+}
+
 func permute(t *kernel.Tape, in []oracle.ExtKind) []oracle.ExtKind {
 	out := append([]oracle.ExtKind{}, in...)
 	for i := len(out) - 1; i > 0; i-- {
@@ -55,7 +65,7 @@ func NewPKI(t *kernel.Tape, epoch time.Time, maxRoots, maxInter int) *PKI {
 		kind := kindsCA[t.Intn(len(kindsCA))]
 		p.serial++
 		root := oracle.Build(oracle.CertSpec{CN: fmt.Sprintf("Root %d", r), Serial: p.serial, Key: p.key(kind),
-			NotBefore: epoch.AddDate(-5, 0, 0), NotAfter: epoch.AddDate(20, 0, 0), IsCA: true,
+			NotBefore: epoch.AddDate(-5, 0, 0), NotAfter: epoch.AddDate(20, 0, 0), IsCA: true, SPKIForm: p.spkiForm(t, kind),
 			Exts: permute(t, []oracle.ExtKind{"bc", "ku", "ski"})})
 		p.Roots = append(p.Roots, root)
 		path := &caPath{Chain: []*oracle.Cert{root}}
@@ -74,7 +84,7 @@ func NewPKI(t *kernel.Tape, epoch time.Time, maxRoots, maxInter int) *PKI {
 			kind := kindsCA[t.Intn(len(kindsCA))]
 			p.serial++
 			ic := oracle.Build(oracle.CertSpec{CN: fmt.Sprintf("Inter %d.%d", r, i), Serial: p.serial, Key: p.key(kind), Issuer: path.Chain[0],
-				NotBefore: epoch.AddDate(-2, 0, 0), NotAfter: epoch.AddDate(10, 0, 0), IsCA: true,
+				NotBefore: epoch.AddDate(-2, 0, 0), NotAfter: epoch.AddDate(10, 0, 0), IsCA: true, SPKIForm: p.spkiForm(t, kind),
 				Exts: permute(t, []oracle.ExtKind{"bc", "ku", "ski", "aki"})})
 			path.Chain = append([]*oracle.Cert{ic}, path.Chain...)
 		}
@@ -152,6 +162,26 @@ func (p *PKI) NewLeaf(t *kernel.Tape, id int, allowPre bool) *Submission {
 	return s
 }
 
+// NewRootAsLeaf submits a trusted root certificate on its own: the validated path
+// is the leaf alone, the chain after the leaf is empty ("leaf-only path"). nil
+// when every root of the run has a re-issued twin (the path would be ambiguous).
+func (p *PKI) NewRootAsLeaf(t *kernel.Tape, id int) *Submission {
+	var cands []*caPath
+	for _, path := range p.Paths {
+		if path.Twin == nil {
+			cands = append(cands, path)
+		}
+	}
+	if len(cands) == 0 {
+		return nil
+	}
+	path := cands[t.Intn(len(cands))]
+	root := path.Chain[len(path.Chain)-1]
+	s := &Submission{ID: id, Leaf: root, IncludeRoot: true}
+	s.Entry = root.EntryFor()
+	return s
+}
+
 // Variant returns the same leaf with the root spelled the other way.
 func (s *Submission) Variant() *Submission {
 	v := *s
@@ -164,7 +194,7 @@ func (s *Submission) Variant() *Submission {
 func (s *Submission) RawChain() [][]byte {
 	out := [][]byte{s.Leaf.DER}
 	n := len(s.Issuers)
-	if !s.IncludeRoot {
+	if !s.IncludeRoot && n > 0 {
 		n--
 	}
 	for _, c := range s.Issuers[:n] {
